@@ -309,7 +309,10 @@ def write_evidence(pid, tier, level, coverage, wall, violations, assumptions=Non
 class Report:
     """collects what a check did; decides the exit code"""
 
+    CURRENT = None      # the report of the running check (main() flushes its violations if the check crashes afterwards)
+
     def __init__(self, pid, tier):
+        Report.CURRENT = self
         self.pid, self.tier = pid, tier
         self.t0 = time.time()
         self.violations = []   # (replay path, summary)
